@@ -114,6 +114,14 @@ def array_failures(d, b_d=None, st=None):
             entries3(lambda: x.transpose(perm), lambda: sr.transpose(x, perm), lambda: ar.do("transpose", x, perm)),
             arr_verify(sym, X.transpose(perm), tuple(fr[p] for p in perm), tuple(x.duals[p] for p in perm), x.charge, tuple(keys[p] for p in perm)),
         )
+        if n >= 2:
+            # the same permutation spelled with negative axes (numpy convention)
+            pneg = tuple(p - n for p in perm)
+            check_entries(
+                fails, st, "transpose[negative-axes]",
+                entries3(lambda: x.transpose(pneg), lambda: sr.transpose(x, pneg), lambda: ar.do("transpose", x, pneg)),
+                arr_verify(sym, X.transpose(perm), tuple(fr[p] for p in perm), tuple(x.duals[p] for p in perm), x.charge, tuple(keys[p] for p in perm)),
+            )
     rev = tuple(range(n - 1, -1, -1))
     check_entries(fails, st, "T", (("method", lambda: x.T), ("symmray", lambda: sr.transpose(x))),
                   arr_verify(sym, X.transpose(rev), tuple(fr[p] for p in rev), tuple(x.duals[p] for p in rev), x.charge))
@@ -128,8 +136,11 @@ def array_failures(d, b_d=None, st=None):
     # squeeze
     ones = [ax for ax in range(n) if x.shape[ax] == 1]
     sq_args = [None] + [ax for ax in ones] + ([tuple(ones)] if len(ones) > 1 else []) + [ax for ax in range(n) if ax not in ones][:1]
+    # axes spelled negatively (numpy convention): single axes and the tuple of all size-one axes
+    sq_args += [ax - n for ax in ones] + ([tuple(ax - n for ax in ones)] if len(ones) > 1 else []) + [ax - n for ax in range(n) if ax not in ones][:1]
     for axis in sq_args:
         axes = tuple(ones) if axis is None else ((axis,) if isinstance(axis, int) else axis)
+        axes = tuple(a % n for a in axes) if n else axes
         if any(x.shape[a] != 1 for a in axes):
             ref = None
         else:
@@ -144,7 +155,7 @@ def array_failures(d, b_d=None, st=None):
         check_entries(fails, st, "squeeze", entries3(lambda: x.squeeze(axis), lambda: sr.squeeze(x, axis), lambda: ar.do("squeeze", x, axis)), v)
     # expand_dims
     odd = [c for c in G.ALPHABET[sym] if c != e][0]
-    for axis in list(range(n + 1)) + [-1]:
+    for axis in list(range(n + 1)) + sorted({-1, -(n + 1), -2} - ({-2} if n == 0 else set())):
         pos = axis if axis >= 0 else axis + n + 1
         ref = np.expand_dims(X, pos)
         for c, dual in ((None, None), (None, True), (odd, False), (odd, True), (odd, None)):
